@@ -145,6 +145,30 @@ def run(chk):
         if not any(e.chars == [32] for e in entries):
             entries.insert(0, tablegen.Entry("space", [32], [0]))
         text = tablegen.pass_table_text(entries, rules)
+        # rules whose effect depends on which of two rules for one character was declared first (a definition and a `base'
+        # rule for the same capital): declaration order must mean the order of the entries, wherever the files are cut
+        lows = [e.chars[0] for e in entries if len(e.chars) == 1 and 97 <= e.chars[0] <= 122]
+        esc_lines = [l for l in escape_variant(entries, rules, r).split("\n") if l]
+        if lows and r.chance(0.6) and len(esc_lines) == len([l for l in text.split("\n") if l]):
+            tl_ = [l for l in text.split("\n") if l]
+            for lc in r.sample(lows, min(len(lows), r.range(1, 2))):
+                at = max(i for i, l in enumerate(tl_) if l.split()[1:2] == [chr(lc)]) + 1
+                extra = ["uppercase %s %s" % (chr(lc - 32), tablegen.dots_text(r.range(1, 255))), "base uppercase %s %s" % (chr(lc - 32), chr(lc))]
+                r.shuffle(extra)
+                # what makes the choice visible: a contraction that a based capital matches case-insensitively, a caps sign
+                other = r.choice(lows)
+                vis = ["always %s%s %s" % (chr(lc), chr(other), tablegen.dots_text(r.range(1, 63))), "capsletter 6"]
+                for x in vis:
+                    k = len(tl_)
+                    tl_.insert(k, x)
+                    esc_lines.insert(k, x)
+                for x in extra:
+                    k = r.range(at, len(tl_))
+                    tl_.insert(k, x)
+                    esc_lines.insert(k, x)
+                alphabet = alphabet + [lc - 32, lc - 32]
+            text = "\n".join(tl_) + "\n"
+            chk.tally("tables_with_definition_and_base_rule_for_one_character")
         d = work / ("t%d" % ti)
         d.mkdir()
         names = {}
@@ -153,7 +177,7 @@ def run(chk):
             names[vname] = str(d / (vname + ".utb"))
         write_variant(d / "u16le.utb", text, "utf16le")
         write_variant(d / "u16be.utb", text, "utf16be")
-        write_variant(d / "escaped.utb", escape_variant(entries, rules, r), "ascii")
+        write_variant(d / "escaped.utb", "\n".join(esc_lines) + "\n", "ascii")
         names.update(u16le=str(d / "u16le.utb"), u16be=str(d / "u16be.utb"), escaped=str(d / "escaped.utb"))
         # split into two files: list, include wrapper
         lines = [l for l in text.split("\n") if l]
